@@ -192,11 +192,9 @@ theorem unham24p_single2 (p0 p1 p2 : Nat) (h0 : p0 < 256) (h2 : p2 < 256) (hv : 
       (and_zero_of_bitsIn hm hf0 (Or.inr (by decide)))
       (and_zero_of_bitsIn hm (F1_bits p1) (Or.inr (Nat.le_refl _)))
 
-/-- OPEN (stated, not proved): `vbi_unham24p (vbi_ham24p c) = c` for every 18-bit `c`.
-    The single-error theorems above start from "syndrome = 0"; that the encoder produces such
-    triplets needs the XOR-linearity of the three `_vbi_hamm24_fwd_*` tables and of P5/P6, which is
-    not done.  Tested instead: checks/C12.py runs `ham24p` and `unham24p` (codeword, all 24
-    single flips, double flips) against an EN 300 706 8.3 reference on every run. -/
+/-- `vbi_unham24p (vbi_ham24p c) = c` for every 18-bit `c`.  Proved in `Hamm/Hamm24Enc.lean`
+    (`ham24p_unham24p`, structurally via XOR-linearity of every encoder stage); stated here because
+    the single-error theorems above start from "syndrome = 0". -/
 def ham24p_unham24p_statement : Prop :=
   ∀ c, c < 2 ^ 18 → unham24p (ham24p c).1 (ham24p c).2.1 (ham24p c).2.2 = some c
 
